@@ -416,11 +416,15 @@ def nx_replay(scenario, history, nx_exe):
         json.dump({"scenario": scenario, "history": history}, f)
         path = f.name
     try:
-        out = subprocess.run([nx_exe, "replay=" + path, "json=1"], stdout=subprocess.PIPE, stderr=subprocess.PIPE)
-        lines = [l for l in out.stdout.decode("latin-1").splitlines() if l.startswith("[")]
-        if not lines:
-            raise RuntimeError("nx replay produced no result: " + out.stderr.decode()[-500:])
-        return json.loads(lines[-1])
+        # (the replay is deterministic; on a machine shared with other exploration jobs the process was seen to end without
+        # output once in several thousand runs: repeated before it is called a disagreement, and reported with its status)
+        for attempt in range(3):
+            out = subprocess.run([nx_exe, "replay=" + path, "json=1"], stdout=subprocess.PIPE, stderr=subprocess.PIPE)
+            lines = [l for l in out.stdout.decode("latin-1").splitlines() if l.startswith("[")]
+            if lines:
+                return json.loads(lines[-1])
+            time.sleep(0.5)
+        raise RuntimeError("nx replay produced no result (exit status %s): %s" % (out.returncode, out.stderr.decode()[-500:]))
     finally:
         os.unlink(path)
 
